@@ -370,7 +370,7 @@ OpJumpIf(vm) ==
        ELSE IF c = 0 THEN R(vm2, CNext)
        ELSE IF d = 0 THEN E("jumped to self")
        \* |WordMin| is not a word: the distance cannot be represented
-       ELSE IF d = WordMin THEN E("index out of bounds")
+       ELSE IF d = WordMin THEN E("pc overflow")
        ELSE IF vm.pc + d < 0 THEN E("pc overflow")
        ELSE R(vm2, CPc(vm.pc + d))
 
